@@ -44,7 +44,8 @@ def helpers(p: Program):
 
 def hidden_state_check(s: Struct, t):
     """C11 observation: t and new_with_raw_value(t.raw_value()) agree through every getter"""
-    lines = [f"let u_ = {s.name}::new_with_raw_value({t}.raw_value());"]
+    lines = [f"let u_ = {s.name}::new_with_raw_value({t}.raw_value());",
+             f"if !({t} == u_) {{ return Err(\"hidden state: the value differs (derived PartialEq on the storage) from new_with_raw_value(raw_value()) of itself\".to_string()); }}"]
     for g in s.fields:
         if not g.readable:
             continue
@@ -174,7 +175,9 @@ def program_source(p: Program, h, inp):
     b = body_for(p, h, inp)
     if b is None:
         return None
-    return MAIN_TMPL.format(decls=p.decl_text(), helpers=helpers(p), body=b,
+    import re
+    decls = re.sub(r"(#\[bitfield\([^\n]*\)\]\n)", r"\1#[derive(PartialEq)]\n", p.decl_text())
+    return MAIN_TMPL.format(decls=decls, helpers=helpers(p), body=b,
                             expect_panic="true" if h.expect == "panic" else "false")
 
 
